@@ -30,7 +30,8 @@ def sortNats (l : List Nat) : List Nat := l.mergeSort (fun a b => decide (a ≤ 
 
 def parseRule (i : Nat) (s : String) : Option (Rule × Bool) :=
   let mk (p f k : String) : Option (Rule × Bool) := do
-    let p ← p.toInt?
+    -- `H` / `G`: a sink priority far outside the int range (the declaration is rejected)
+    let p ← if p == "H" then some (10 ^ 19 : Int) else if p == "G" then some (-(10 ^ 19 : Int)) else p.toInt?
     some ({ name := i, prio := p, fails := f != "0" }, k == "1")
   match s.splitOn ":" with
   | [p, f, k] => mk p f k
@@ -48,7 +49,7 @@ def parseHistory (s : String) : List LOp :=
 
 def runRules (flag : String) (rs : List String) : String :=
   let (hist, rs) := match rs with
-    | h :: rest => if h.startsWith "H" then (parseHistory h, rest) else ([], rs)
+    | h :: rest => if h.startsWith "H" && !h.contains ':' then (parseHistory h, rest) else ([], rs)
     | [] => ([], [])
   match (rs.zipIdx.map fun (s, i) => parseRule i s).mapM id with
   | none => "bad-payload"
@@ -58,6 +59,36 @@ def runRules (flag : String) (rs : List String) : String :=
     let nt := rules.length ≥ 2 && rules.any (·.1.fails)
     s!"exec={joinOr "." (exec.map (toString ·.prio))} err={joinOr "." ((sortInts (errs.map (·.prio))).map toString)} kids={kids}"
       ++ (if nt then "\tnt=1" else "")
+
+/-- `P <flag> <allowed scopes> <prio>:<fails>:<kid>:<scope>:<suppressed>:<double>…` — the part of
+    `ProcessEvent` before the sort (which rules run is C01's subject; here it only prepares the list
+    whose ORDER is checked): a rule is a candidate once (also with two matching kind patterns) if
+    its scope is allowed; every candidate's suppression list counts; what is left is sorted and run. -/
+structure PreRule where
+  rule  : Rule
+  kid   : Bool
+  scope : String
+  supp  : List Nat
+
+def parsePre (i : Nat) (s : String) : Option PreRule :=
+  match s.splitOn ":" with
+  | [p, f, k, sc, su, _] =>
+    (parseRule i s!"{p}:{f}:{k}").map fun r =>
+      { rule := r.1, kid := r.2, scope := sc,
+        supp := if su == "-" then [] else (su.splitOn "+").filterMap String.toNat? }
+  | _ => none
+
+def runPre (flag allowed : String) (rs : List String) : String :=
+  match (rs.zipIdx.map fun (s, i) => parsePre i s).mapM id with
+  | none => "bad-payload"
+  | some rules =>
+    let cands := rules.filter fun (r : PreRule) => r.scope == "-" || (allowed.toList.any fun c => c.toString == r.scope)
+    let suppressed := cands.flatMap fun (r : PreRule) => r.supp
+    let left := cands.filter fun (r : PreRule) => !suppressed.contains r.rule.name
+    let (exec, errs) := processRules stableSort (flag == "1") (left.map (·.rule))
+    let kids := (exec.filter fun r => (left.find? (·.rule.name == r.name)).any (·.kid)).length
+    s!"exec={joinOr "." (exec.map (toString ·.prio))} err={joinOr "." ((sortInts (errs.map (·.prio))).map toString)} kids={kids}"
+      ++ (if left.length ≥ 2 then "\tnt=1" else "")
 
 def parseOp (s : String) : Option Book.Op :=
   let rest := (s.drop 1).toString
@@ -82,8 +113,7 @@ def runBook (ops : List String) : String :=
     let out := go {} ops []
     let nt := ops.any (fun | .finish _ => true | _ => false) &&
       (ops.filter (fun | .activate _ => true | .skip _ => true | _ => false)).length ≥ 2
-    joinOr "," out.1 ++ " act=" ++ String.ofList (out.2.mons.map fun m => if m.activated then '1' else '0')
-      ++ (if nt then "\tnt=1" else "")
+    joinOr "," out.1 ++ (if nt then "\tnt=1" else "")
 
 def parseRules (s : String) : Option (List (Int × Bool)) :=
   if s == "-" then some [] else
@@ -109,11 +139,17 @@ def sortPairs (l : List (Nat × Nat)) : List (Nat × Nat) :=
 
 def showPair (p : Nat × Nat) : String := s!"{p.1}/{p.2}"
 
-def runRoot (one : Bool) (flag : Bool) (s : String) : String :=
+/-- `shift ≠ 0`: the run in which the queue does not clamp negative priorities (all monitor
+    priorities moved into the range ≥ 0, reports moved back) -/
+def runRoot (one : Bool) (flag : Bool) (shift : Int) (s : String) : String :=
   match (s.splitOn ",").mapM parseNode with
   | none => "bad-payload"
   | some nodes =>
-    let st := Cascade.runScript Book.current stableSort flag nodes
+    let run := if shift == 0 then nodes else nodes.map fun n => { n with prio := some (n.prio.getD 0 + shift) }
+    let st0 := Cascade.runScript Book.current stableSort flag run
+    let unshift (hp : Int) : Int := if hp == -1 && shift != 0 then -1 else hp - shift
+    let st := { st0 with started := st0.started.map fun (p, hp) => (p, unshift hp) }
+    let endHp := unshift (Book.highestPriority st0.rm)
     if st.bad then "MODEL-ASSERT" else
     let started := st.started.reverse
     let errs := joinOr "." ((sortPairs st.errs).map showPair)
@@ -127,7 +163,7 @@ def runRoot (one : Bool) (flag : Bool) (s : String) : String :=
     let paths := if rootHasEvent then
         joinOr ";" (failed.map fun e => s!"{e}:" ++ ">".intercalate ((chain nodes.length e).map toString))
       else "-"
-    let fin := s!" path={paths} end={Book.highestPriority st.rm}"
+    let fin := s!" path={paths} end={endHp}"
     if one then
       joinOr "." (started.map fun (p, hp) => s!"{showPair p}@{hp}") ++ " err=" ++ errs ++ fin
     else
@@ -146,8 +182,11 @@ def clampMatters (flag : Bool) (s : String) : Bool :=
 def runCascade (workers flag : String) (roots : String) : String :=
   let rs := roots.splitOn "|"
   let nodes : Nat := (rs.map fun r => (r.splitOn ",").length).foldl (· + ·) 0
-  "|".intercalate (rs.map (runRoot (workers == "1") (flag == "1"))) ++ " hp=ok" ++ (if nodes ≥ 3 then "\tnt=1" else "")
-    ++ (if workers == "1" && rs.any (clampMatters (flag == "1")) then "\tdev=neg" else "")
+  let res (shift : Int) := "|".intercalate (rs.map (runRoot (workers == "1") (flag == "1") shift)) ++ " hp=ok"
+  res 0 ++ (if nodes ≥ 3 then "\tnt=1" else "")
+    -- known finding: the clamp changes the order; `spec` = the run the property's wording asks for
+    ++ (if workers == "1" && rs.any (clampMatters (flag == "1")) then
+          "\tkf=negative-priority-clamped\tspec=" ++ res 1048576 else "")
 
 /-- `Q`: sortutil.PriorityQueue driven directly; the model is the real representation `HPQ`.
     ops: `+<prio>` Push (value = number of the push), `-` Pop, `k` Peek, `c` Clear.
@@ -186,6 +225,21 @@ def validateCase (line : String) : String :=
   match line.splitOn " ## " with
   | [payload, observed] =>
     match payload.splitOn " ", observed.splitOn " " with
+    | "W" :: rs, [ex, er, kd] =>
+      -- sinks (flag on): must be a run under the FLOORED numbers (the code as it is); `ok-floored-only`
+      -- when it is not a run under the numbers as written (known finding fractional-sink-priority-floored)
+      let exact (i : Nat) (s : String) : Option Rule := do
+        let r ← parseRule i s
+        let frac := match s.splitOn ":" with | [_, _, _, f] => f.toNat?.getD 0 | _ => 0
+        some { r.1 with prio := r.1.prio * 10 + frac }
+      match (rs.zipIdx.map fun (s, i) => parseRule i s).mapM id, (rs.zipIdx.map fun (s, i) => exact i s).mapM id,
+            parseNames ((ex.drop 5).toString), parseNames ((er.drop 4).toString), ((kd.drop 5).toString).toNat? with
+      | some rules, some exactRules, some exec, some errs, some kids =>
+        let want := (exec.filter fun i => (rules[i]?.map (·.2)).getD false).length
+        if validRun true (rules.map (·.1)) exec errs && kids == want then
+          (if validRun true exactRules exec errs then "ok" else "ok-floored-only")
+        else "bad"
+      | _, _, _, _, _ => "bad-payload"
     | "V" :: flag :: rs, [ex, er, kd] =>
       match (rs.zipIdx.map fun (s, i) => parseRule i s).mapM id,
             parseNames ((ex.drop 5).toString), parseNames ((er.drop 4).toString), ((kd.drop 5).toString).toNat? with
@@ -199,7 +253,11 @@ def validateCase (line : String) : String :=
 def runCase (payload : String) : String :=
   match payload.splitOn " " with
   | "R" :: flag :: rules => runRules flag rules
-  | "S" :: rules => runRules "1" rules
+  | "S" :: rules =>
+    -- interpreter/rt_sink.go createRule: a priority that does not fit into an int is rejected
+    if rules.any (fun r => r.startsWith "H:" || r.startsWith "G:") then "ERR-priority-range" else runRules "1" rules
+  | "W" :: _ => "validated"
+  | "P" :: flag :: allowed :: rules => runPre flag allowed rules
   | "B" :: ops => runBook ops
   | "Q" :: ops => runQ ops
   | "V" :: _ => "validated"
@@ -220,7 +278,9 @@ def traceCase (payload : String) : String :=
     -- replayed on the abstract queue and on the real representation (container/heap slice)
     match checkTrace [] 0 evs, checkTraceH [] 0 evs with
     | none, none => "ok"
-    | some k, _ => s!"bad {k}"
+    | some k, _ =>
+      -- a tree in which the clamp of negative priorities was repaired follows the unclamped queue
+      if (checkTraceRaw [] 0 evs).isNone then "ok-unclamped" else s!"bad {k}"
     | none, some k => s!"bad-heap {k}"
 
 def run (args : List String) : IO Unit :=
